@@ -322,6 +322,105 @@ fn check_header_parsers_no_panic() -> bool {
     true
 }
 
+// ---------------------------------------------------------------- multipart end to end (C15)
+mod mp {
+    use std::{pin::Pin, task::{Context, Poll}};
+    use actix_multipart::Multipart;
+    use actix_web::{error::PayloadError, http::header::{HeaderMap, HeaderValue, CONTENT_TYPE}, web::Bytes};
+    use futures_core::Stream;
+
+    /// the request body as a stream of the given pieces, then the end
+    struct Pieces { items: Vec<Vec<u8>>, pos: usize }
+    impl Stream for Pieces {
+        type Item = Result<Bytes, PayloadError>;
+        fn poll_next(mut self: Pin<&mut Self>, _: &mut Context<'_>) -> Poll<Option<Self::Item>> {
+            if self.pos < self.items.len() { let b = Bytes::from(self.items[self.pos].clone()); self.pos += 1; Poll::Ready(Some(Ok(b))) } else { Poll::Ready(None) }
+        }
+    }
+
+    #[derive(Debug, PartialEq)]
+    pub enum Outcome { Fields(Vec<(String, Vec<u8>)>), Error(Vec<(String, Vec<u8>)>), Hang }
+
+    /// drives Multipart by hand with a no-op waker; a Pending that persists once the body stream has ended is a hang
+    pub fn parse(pieces: Vec<Vec<u8>>) -> Outcome {
+        let mut headers = HeaderMap::new();
+        headers.insert(CONTENT_TYPE, HeaderValue::from_static("multipart/form-data; boundary=bnd"));
+        let mut mp = Multipart::new(&headers, Pieces { items: pieces, pos: 0 });
+        let waker = futures_util::task::noop_waker();
+        let mut cx = Context::from_waker(&waker);
+        let mut out: Vec<(String, Vec<u8>)> = Vec::new();
+        let mut idle = 0;
+        loop {
+            match Pin::new(&mut mp).poll_next(&mut cx) {
+                Poll::Ready(None) => return Outcome::Fields(out),
+                Poll::Ready(Some(Err(_))) => return Outcome::Error(out),
+                Poll::Ready(Some(Ok(mut field))) => {
+                    idle = 0;
+                    let name = field.name().unwrap_or("").to_owned();
+                    let mut data = Vec::new();
+                    let mut fidle = 0;
+                    loop {
+                        match Pin::new(&mut field).poll_next(&mut cx) {
+                            Poll::Ready(Some(Ok(b))) => { fidle = 0; data.extend_from_slice(&b) }
+                            Poll::Ready(Some(Err(_))) => { out.push((name, data)); return Outcome::Error(out); }
+                            Poll::Ready(None) => break,
+                            Poll::Pending => { fidle += 1; if fidle > 10_000 { return Outcome::Hang; } }
+                        }
+                    }
+                    out.push((name, data));
+                }
+                Poll::Pending => { idle += 1; if idle > 10_000 { return Outcome::Hang; } }
+            }
+        }
+    }
+}
+
+fn check_multipart() -> bool {
+    // contents with CR, LF, dashes and partial boundary look-alikes (never the full delimiter CRLF "--bnd", and not the
+    // bare-CR look-alike of the listed finding C15 end_only_at_crlf_delimiter)
+    let contents: Vec<&[u8]> = vec![b"", b"a", b"ab", b"\r\n", b"\n", b"-", b"--", b"\r\n-", b"\r\n--b", b"a\r\n--bn-", b"--bnd", b"x--bnd--"];
+    let mut n = 0usize;
+    let mut bodies: Vec<(Vec<u8>, Vec<(String, Vec<u8>)>)> = Vec::new();
+    for a in &contents {
+        let mut one = Vec::new();
+        one.extend_from_slice(b"--bnd\r\nContent-Disposition: form-data; name=\"f0\"\r\n\r\n"); one.extend_from_slice(a); one.extend_from_slice(b"\r\n--bnd--\r\n");
+        bodies.push((one, vec![("f0".to_owned(), a.to_vec())]));
+        for b in &contents {
+            let mut two = Vec::new();
+            two.extend_from_slice(b"--bnd\r\nContent-Disposition: form-data; name=\"f0\"\r\n\r\n"); two.extend_from_slice(a);
+            two.extend_from_slice(b"\r\n--bnd\r\nContent-Disposition: form-data; name=\"f1\"\r\nContent-Type: text/plain\r\n\r\n"); two.extend_from_slice(b);
+            two.extend_from_slice(b"\r\n--bnd--\r\n");
+            bodies.push((two, vec![("f0".to_owned(), a.to_vec()), ("f1".to_owned(), b.to_vec())]));
+        }
+    }
+    for (body, fields) in &bodies {
+        let mut segs: Vec<Vec<Vec<u8>>> = vec![vec![body.clone()]];
+        for cut in 1..body.len() { segs.push(vec![body[..cut].to_vec(), body[cut..].to_vec()]); }
+        segs.push(body.chunks(1).map(|c| c.to_vec()).collect());
+        for seg in segs {
+            n += 1;
+            let sizes: Vec<usize> = seg.iter().map(|p| p.len()).collect();
+            let got = match catch_unwind(AssertUnwindSafe(|| mp::parse(seg))) { Ok(g) => g, Err(_) => { println!("BOUNDED-FAIL multipart_fields input={:?} pieces={:?} expected={:?} got=panic", String::from_utf8_lossy(body), sizes, fields); return false; } };
+            if got != mp::Outcome::Fields(fields.clone()) {
+                println!("BOUNDED-FAIL multipart_fields input={:?} pieces={:?} expected={:?} got={:?}", String::from_utf8_lossy(body), sizes, fields, got);
+                return false;
+            }
+        }
+        // truncated anywhere before the closing delimiter is complete: an error, never a hang and never a clean end
+        for cut in 0..body.len() - 2 {
+            n += 1;
+            let got = match catch_unwind(AssertUnwindSafe(|| mp::parse(vec![body[..cut].to_vec()]))) { Ok(g) => g, Err(_) => mp::Outcome::Hang };
+            let bad = match &got { mp::Outcome::Error(_) => false, mp::Outcome::Hang => true, mp::Outcome::Fields(_) => true };
+            if bad {
+                println!("BOUNDED-FAIL multipart_truncated input={:?} expected=an error got={:?}", String::from_utf8_lossy(&body[..cut]), got);
+                return false;
+            }
+        }
+    }
+    println!("BOUNDED-OK multipart_fields cases={}", n);
+    true
+}
+
 fn main() {
     std::panic::set_hook(Box::new(|_| {}));
     let dir = std::env::current_dir().unwrap().join("files");
@@ -332,5 +431,6 @@ fn main() {
     ok &= check_conditionals(&dir);
     ok &= check_header_map();
     ok &= check_header_parsers_no_panic();
+    ok &= actix_web::rt::System::new().block_on(async { check_multipart() });
     std::process::exit(if ok { 0 } else { 1 });
 }
